@@ -42,6 +42,10 @@ type LinearState struct {
 
 	cachedRules map[string]*Rule
 
+	// cacheMutex guards cachedRules, which is touched by callers
+	// that do not (and need not) hold the state lock.
+	cacheMutex sync.Mutex
+
 	store Storage
 
 	addHook AddHookFn
@@ -154,7 +158,7 @@ func (s *LinearState) Load(ctx *Context) error {
 
 func (s *LinearState) Add(ctx *Context, id string, x Map) (string, error) {
 	Log(DEBUG, ctx, "LinearState.Add", "state", s.Name, "x", x, "id", id)
-	delete(s.cachedRules, id)
+	s.forgetCachedRule(id)
 	timer := NewTimer(ctx, "LinearState.Add")
 	defer timer.Stop()
 
@@ -213,7 +217,7 @@ func (s *LinearState) Rem(ctx *Context, id string) (bool, error) {
 
 func (s *LinearState) rem(ctx *Context, id string, lock bool) (bool, error) {
 	Log(DEBUG, ctx, "LinearState.rem", "id", id)
-	delete(s.cachedRules, id)
+	s.forgetCachedRule(id)
 	_, err := s.store.Remove(ctx, s.Name, []byte(id))
 	// ToDo: Consider what's returned.
 	if err != nil {
@@ -417,15 +421,20 @@ func (s *LinearState) FindCachedRules(ctx *Context, event Map) (map[string]*Rule
 
 	acc := make(map[string]*Rule)
 	for id, r := range rules {
-		if _, isCached := s.cachedRules[id]; isCached {
-			acc[id] = s.cachedRules[id]
+		s.cacheMutex.Lock()
+		cached, isCached := s.cachedRules[id]
+		s.cacheMutex.Unlock()
+		if isCached {
+			acc[id] = cached
 		} else {
 			rule, err := RuleFromMap(ctx, r)
 			if err != nil {
 				return nil, err
 			}
 			acc[id] = rule
+			s.cacheMutex.Lock()
 			s.cachedRules[id] = rule
+			s.cacheMutex.Unlock()
 		}
 	}
 	return acc, nil
@@ -461,7 +470,7 @@ func (s *LinearState) Clear(ctx *Context) error {
 	// Maybe protect the store (above), too.
 	s.slock(ctx, false)
 	s.Facts = make(map[string]RawFact)
-	s.cachedRules = make(map[string]*Rule)
+	s.resetCachedRules()
 	s.sunlock(ctx, false)
 	return err
 }
@@ -475,7 +484,7 @@ func (s *LinearState) Delete(ctx *Context) error {
 	// Maybe protect the store (above), too.
 	s.slock(ctx, false)
 	s.Facts = make(map[string]RawFact)
-	s.cachedRules = make(map[string]*Rule)
+	s.resetCachedRules()
 	s.sunlock(ctx, false)
 	return err
 }
@@ -537,4 +546,18 @@ func (s *LinearState) expire(ctx *Context, id string, fact map[string]interface{
 	}
 
 	return expired, nil
+}
+
+// forgetCachedRule drops the parsed form of the given rule (if any).
+func (s *LinearState) forgetCachedRule(id string) {
+	s.cacheMutex.Lock()
+	delete(s.cachedRules, id)
+	s.cacheMutex.Unlock()
+}
+
+// resetCachedRules forgets all parsed rules.
+func (s *LinearState) resetCachedRules() {
+	s.cacheMutex.Lock()
+	s.cachedRules = make(map[string]*Rule)
+	s.cacheMutex.Unlock()
 }
